@@ -160,3 +160,10 @@ package hash
 //@   property C15
 //@   ensures fresh(result) && result.ring != nil && result.nodes != nil && result.replicas >= 100
 //@   allocates
+
+// the ring's hash is the 64-bit murmur3 of the bytes (a narrower hash makes virtual points of different nodes coincide)
+//@ func Hash
+//@   property C15
+//@   ghost at after Sum64#0: h64 = ret
+//@   call Sum64#0: assert sameSlice(arg_data, data)
+//@   ensures_local result == h64
